@@ -7,5 +7,6 @@ trap 'rm -rf "$TMP"' EXIT
 "$ROOT/scripts/build.sh" "$TMP"
 "$ROOT/scripts/build.sh" "$TMP/stmt" -stmt leveldb/memdb
 "$ROOT/scripts/build.sh" "$TMP/stmt2" -stmt leveldb/cache
+"$ROOT/scripts/build.sh" "$TMP/stmt3" -stmt "$("$ROOT/scripts/stmtfiles.sh")"
 (cd "$ROOT/engine" && GOFLAGS=-mod=mod GOPROXY=off GOSUMDB=off GOTOOLCHAIN=local go build -race -o "$TMP/racepass" ./cmd/racepass)
 echo setup ok
